@@ -85,7 +85,7 @@ func (c13) Components() map[string]string {
 
 func (c13) Gen(r *Rand, idx int, tier string) interface{} {
 	p := &c13Plan{Knobs: GenKnobs(r)}
-	p.Kind = Pick(r, []string{"cancel", "cancel", "closed-calls", "conn-close", "close-queue", "close-queue", "close-send", "close-recv", "close-errqueue", "cancel-send"})
+	p.Kind = Pick(r, []string{"cancel", "cancel", "closed-calls", "conn-close", "close-queue", "close-queue", "close-send", "close-recv", "close-errqueue", "cancel-send", "cancel-send2"})
 	p.FlushFull = r.Pct(40)
 	p.Logical = r.Pct(40)
 	p.QueueSize = Pick(r, []int{0, 1, 2, 3, 5, 100})
@@ -224,6 +224,8 @@ type c13Res struct {
 	sendCall, sendRet, sendPackets int
 	sendErr                        error
 	sendDone                       bool
+	// cancel-send2: event sequence number after which nothing of the cancelled sender's package may reach the wire
+	lateFrom int
 }
 
 func (r *c13Res) violate(class, sig, format string, a ...interface{}) {
@@ -269,7 +271,7 @@ func (c13) Run(plan interface{}, schedSeed uint64, replay []simrt.Choice, lenien
 			case "partial":
 				// the header and half of the body, then nothing: the reader sits inside the packet
 				s.Fault("logout-answered-in-part")
-				pr.Conn.Deliver(done[0][:12])
+				pr.SendPartial(done[0][:12])
 			default:
 				s.Fault("logout-never-answered")
 			}
@@ -361,6 +363,8 @@ func (c13) Run(plan interface{}, schedSeed uint64, replay []simrt.Choice, lenien
 			c13CloseErrQueue(p, res, conn, ch)
 		case "cancel-send":
 			c13CancelSend(p, res, conn, ch)
+		case "cancel-send2":
+			c13CancelSend2(p, res, conn, ch, pr)
 		}
 		_ = bg
 	})
@@ -409,6 +413,19 @@ func (c13) Run(plan interface{}, schedSeed uint64, replay []simrt.Choice, lenien
 			}
 		}
 		v.Probe("send-with-cancelled-context")
+	}
+	if p.Kind == "cancel-send2" && res.lateFrom > 0 && v.Class == "" {
+		// the package of the sender whose call failed with its context's error: whatever reaches the transport after
+		// that call has returned must not contain it (a send with a cancelled context writes nothing - and leaves
+		// nothing behind for the next message either)
+		// (judged by when the client WROTE the bytes - a slow server reads them later)
+		for i, sq := range pr.Conn.WroteAt {
+			if sq > res.lateFrom && bytes.Contains(pr.Conn.Wrote[i], []byte(c13MarkB)) {
+				v.Violate("write-after-cancel", "cancel-send2: the package of a send that failed with its context's error went out later", "sender B's call returned %q at event %d; its package was written to the transport at event %d (with the next message)", res.sendErr, res.lateFrom, sq)
+				break
+			}
+		}
+		v.Probe("send-cancelled-while-waiting-for-another-sender")
 	}
 	if p.Kind == "cancel-send" && res.sendDone && v.Class == "" {
 		after, during := 0, 0
@@ -644,6 +661,52 @@ func c13CauseCtx(p *c13Plan, res *c13Res, ch *tds.Channel) {
 var errC13Cause = errors.New("the caller's own reason for giving up (harness marker)")
 
 // c13CancelSend: the context of a send that needs several packets is cancelled while the send runs.
+const c13MarkB = "BbBbBbBbBbBbBbBb-marker-of-sender-B"
+
+// c13CancelSend2: two goroutines send on one channel while the server is slow (it has stopped reading for a second, so
+// one sender sits in the transport while the other waits for its turn); the waiting sender's context is cancelled
+// meanwhile. Then the channel sends one more message. What the two concurrent sends put on the wire is not judged
+// (two goroutines that queue and flush on one channel share its message), only: a call that failed with its
+// context's error has written nothing from then on.
+func c13CancelSend2(p *c13Plan, res *c13Res, conn *tds.Conn, ch *tds.Channel, pr *TDSPeer) {
+	own, cancelOwn := simrt.WithCancel(context.Background())
+	defer cancelOwn()
+	window := []int{0, 8, 100, 511, 600}[p.Sends%5]
+	simrt.Sched(func() { pr.Conn.StallFor(window, time.Second) })
+	a := simrt.Spawn("senderA", func() {
+		_ = ch.SendPackage(context.Background(), &tds.LanguagePackage{Cmd: strings.Repeat("a", 700)})
+	})
+	b := simrt.Spawn("senderB", func() {
+		for i := 0; i < p.CloseAfter%4; i++ {
+			simrt.Yield(0)
+		}
+		res.sendCall = simrt.Record("send-call", "B", "", 0)
+		res.sendErr = ch.SendPackage(own, &tds.LanguagePackage{Cmd: c13MarkB})
+		res.sendRet = simrt.Record("send-ret", "B", "", 0)
+		res.sendDone = true
+	})
+	canceller := simrt.Spawn("canceller", func() {
+		for i := 0; i < p.CancelAfter; i++ {
+			simrt.Yield(0)
+		}
+		simrt.Record("cancel", "own", "", 0)
+		cancelOwn()
+		res.cancelSeq = simrt.Record("cancelled", "own", "", 0)
+	})
+	simrt.Join(a, b, canceller)
+	if res.sendErr != nil {
+		if !errors.Is(res.sendErr, context.Canceled) {
+			res.violate("wrong-error", "cancel: send error does not wrap the context error", "sender B's SendPackage returned %q", res.sendErr)
+		}
+		res.lateFrom = res.sendRet
+	}
+	simrt.Sleep(2 * time.Second) // the server reads again
+	if err := ch.SendPackage(context.Background(), &tds.LanguagePackage{Cmd: "the next message"}); err != nil {
+		res.violate("wrong-result", "cancel-send2: the next send failed", "a send after the two concurrent ones failed: %v", err)
+	}
+	simrt.Sleep(10 * time.Millisecond)
+}
+
 func c13CancelSend(p *c13Plan, res *c13Res, conn *tds.Conn, ch *tds.Channel) {
 	own, cancelOwn := simrt.WithCancel(context.Background())
 	defer cancelOwn()
@@ -948,5 +1011,5 @@ func c13CloseRecv(p *c13Plan, res *c13Res, conn *tds.Conn, ch *tds.Channel) {
 
 // RequiredProbes: a batch in which one of these never fired explored nothing of that kind (exit 2, not a pass).
 func (c13) RequiredProbes() []string {
-	return []string{"landed-inside-call", "kind:cancel", "kind:close-queue", "kind:close-send", "kind:close-recv", "kind:closed-calls", "kind:conn-close", "send-with-cancelled-context"}
+	return []string{"landed-inside-call", "kind:cancel", "kind:close-queue", "kind:close-send", "kind:close-recv", "kind:closed-calls", "kind:conn-close", "send-with-cancelled-context", "send-cancelled-while-waiting-for-another-sender"}
 }
